@@ -163,7 +163,7 @@ def locals_not_visible_in_callee(rng):
 
 def recursion_frames(rng):
     """same-named locals in recursive frames keep their own values (pooled frames must be cleared)."""
-    t, u = names(rng, 2)
+    t, u = rng.sample([x for x in NAMES if x != "n"], 2)
     k = rng.randint(1, 4)
     base = rng.randint(0, 3)
     op1, op2 = rng.choice(["+", "*"]), rng.choice(["+", "-"])
